@@ -96,7 +96,7 @@ def check_esc(case, known=False):
     if not known:
         if escgen.n1_class(templates):
             raise core.Excluded()  # N1 / F48 (never generated in neutral mode)
-        if escgen.has_blocks(templates) and any(m["m"] in ("region", "volatile", "segments") for m in case["modes"]):
+        if escgen.has_blocks(templates) and any(m["m"] in c15.REGION_MODES for m in case["modes"]):
             raise core.Excluded()  # N2 / F49
     labels = set()
     has_hcat = False
@@ -121,7 +121,7 @@ def check_esc(case, known=False):
     differ = False
     allowed = _allowed()
     for mode in case["modes"]:
-        if mode["m"] == "volatile" and has_hcat and not known:
+        if mode["m"] in ("volatile", "nested") and has_hcat and not known:
             raise core.Excluded()  # known finding F5
         s_on, entry, esrc = c15.mode_sources(templates, mode, True)
         on = c15.stream(c15.make_env(s_on, mode, True), entry, esrc, data, allowed)
@@ -419,7 +419,7 @@ def run_shard(spec, ctx):
 
 def floors(total, tier):
     lab = total.labels
-    for need in ("mode:static", "mode:select", "mode:string", "mode:region", "mode:volatile", "mode:segments", "s:macro", "s:callblock", "s:caller",
+    for need in ("mode:static", "mode:select", "mode:string", "mode:region", "mode:volatile", "mode:segments", "mode:nested", "s:macro", "s:callblock", "s:caller",
                  "s:setblock", "s:filter", "s:include", "s:import", "s:from", "s:block", "s:super", "s:self", "s:recursive", "s:module_macro",
                  "stmt", "tset:inherit", "tset:modules"):
         if lab.get(need, 0) < 10:
